@@ -109,6 +109,77 @@ func VerifC26Parallel() {
 	verifReach("end")
 }
 
+// VerifC26Backlog: the job backlog is full. A pool with a job backlog of 0..1 gets 2..3 jobs, each submitted completely
+// (NewJob, tasks, Done) before the next NewJob — so NewJob has to wait for a slot while an earlier job is in flight —
+// then all are waited for and the pool is stopped. Every job must complete (no schedule hangs) with the usual verdicts.
+func VerifC26Backlog() {
+	nw := 1 + verifChoose("workers", 2)
+	backlog := verifChoose("jobBacklog", 2)
+	w := NewParallel(nw, backlog).(*ParallelWorkers)
+	njobs := 2 + verifChoose("jobs", verifParam("backlogExtraJobs", 1, 2))
+	var jobs [3]*c26job
+	for k := 0; k < njobs; k++ {
+		j, err := w.NewJob(c26MaxTasks)
+		if err != nil {
+			verifFail("newjob-error-before-stop")
+		}
+		jb := &c26job{j: j, pj: j.(*ParallelJob), nt: 1 + verifChoose("tasks", 2)}
+		jobs[k] = jb
+		k := k
+		for i := 0; i < jb.nt; i++ {
+			i := i
+			jb.fail[i] = verifChoose("fail", 2) == 1
+			if jb.fail[i] {
+				jb.any = true
+			}
+			jb.j.Go(func() error {
+				jb.ran[i]++
+				if k >= 1 {
+					select {
+					case <-jobs[k-1].pj.completed:
+					default:
+						verifFail("next-job-started-before-previous-completed")
+					}
+				}
+				if jb.fail[i] {
+					jb.failed = true
+					return errC26
+				}
+				return nil
+			})
+		}
+		jb.j.Done(nil)
+	}
+	verifReach("all-jobs-submitted")
+	for k := 0; k < njobs; k++ {
+		jb := jobs[k]
+		res := jb.j.Wait()
+		executed := 0
+		for i := 0; i < jb.nt; i++ {
+			if jb.ran[i] > 1 {
+				verifFail("task-ran-twice")
+			}
+			executed += jb.ran[i]
+		}
+		if (res != nil) != jb.failed {
+			if res == nil {
+				verifFail("failure-not-reported")
+			}
+			verifFail("error-reported-without-failed-task")
+		}
+		if !jb.any {
+			if executed != jb.nt {
+				verifFail("task-not-run-although-none-failed")
+			}
+		}
+	}
+	w.Stop()
+	if _, err := w.NewJob(1); !errors.Is(err, ErrShutdown) {
+		verifFail("job-accepted-after-stop")
+	}
+	verifReach("end")
+}
+
 // VerifC26Serial: the serial implementation of the same interface: all tasks run in order until the first failure,
 // which is what Wait reports.
 func VerifC26Serial() {
